@@ -26,7 +26,7 @@ Terms are nested tuples: ('const', v) ('name', id) ('attr', base, name) ('idx', 
 ('slice', lo, hi, step) ('call', func, (args...), ((kw, term)...)) ('add', t...) ('mul', t...)
 ('inv', t) ('bin', op, a, b) ('cmp', op, a, b) ('and', t...) ('or', t...) ('not', t)
 ('ifexp', c, a, b) ('tuple'|'list'|'set', t...) ('dict', (k, v)...) ('comp', elt, gens) ('lambda', n, body)
-('elem', iterable) ('item', t, i) ('bound', i) ('raise', exc) ('loop', name, pre, body) ('opaque', text).
+('elem', iterable, loop nesting depth) ('item', t, i) ('bound', i) ('raise', exc) ('loop', name, pre, body) ('opaque', text).
 """
 from __future__ import annotations
 
@@ -569,7 +569,7 @@ class Sym:
         lp = loops
         for g in e.generators:  # type: ignore[attr-defined]
             it = self.ev(g.iter, env2, p, lp)
-            self._bind_target(g.target, ("elem", it), env2)
+            self._bind_target(g.target, ("elem", it, len(lp)), env2)
             lp = lp + (it,)
             conds = []
             for c in g.ifs:
@@ -973,7 +973,7 @@ class Sym:
         for k in assigned:
             if k not in building:
                 e2[k] = ("carried", k) if pre.get(k) is not None else UNDEF
-        self._bind_target(st.target, ("elem", it), e2)
+        self._bind_target(st.target, ("elem", it, len(loops)), e2)
         inner_loops = loops + (it,)
         self._exits.append([])
         o = self.block(st.body, e2, path, inner_loops)
